@@ -833,6 +833,15 @@ fn gen_split(r: &mut Rng, quota: usize, quick: bool, out: &mut Vec<String>) {
         let mut ms = split_maxes(&cs);
         if quick {
             ms = thin(r, ms, 16);
+            // the exact fit and its two neighbours always stay (automatic change entry.rs:1150: `<=` -> `<` in the borrowed
+            // copy of split returned (everything, Some(empty part)) on an exact fit and survived the thinned sample)
+            let total = blen(&cs);
+            for m in [total.saturating_sub(1), total, total + 1] {
+                if !ms.contains(&m) {
+                    ms.push(m);
+                }
+            }
+            ms.sort();
         }
         let text = show_chunks(&cs);
         for m in ms {
